@@ -126,5 +126,6 @@ pub fn def() -> PropDef {
         assumptions: &["compose model = left-to-right longest match over the pairs the language itself reports", "titles never contain the sentinel characters (generator excludes them)"],
         spaces: vec![Space { name: "world", decode, plan: |t| Plan::Random(t.n(200_000, 3_000_000)) }],
         differential: false,
+        floors: &[("hits", 0.5)],
     }
 }
